@@ -1,6 +1,7 @@
 import WpModel.Model.Wire
 import WpModel.Model.PdfStream
 import WpModel.Model.UseRefs
+import WpModel.Model.GradientDraw
 
 /-!
 Wire commands of the stream machine.
@@ -183,6 +184,9 @@ def handle (cmd : String) (args : List Sx) : Option String :=
             toString (st.added.filter (fun a => match a with | .stream _ => true | _ => false)).length ++
             " images=" ++ toString st.imagesDone.length
         | .error e => "U " ++ showErr e
+      -- every name an operator uses is a key of the dictionary of the stream that emits it (`resources_defined`)
+      let wb := wb ++ (if w.badRefs.isEmpty then " refs=ok" else
+        " refs=bad:" ++ ",".intercalate (w.badRefs.map toString))
       some ("ok " ++ wb ++ " | " ++ " | ".intercalate (w.streams.map showStreamToks) ++ " || " ++
         " | ".intercalate (w.res.map showResKeys) ++ " || " ++ refs)
     | .error e => some (showErr e)
